@@ -285,6 +285,83 @@ func VerifC05DiskHistory() {
 // ---------------------------------------------------------------------------
 // C08: reopening the directory image frozen at any instant of a write sequence.
 
+// verifSnap: a snapshot of the history by its offset
+type verifSnap struct {
+	left int64
+	data []byte
+}
+
+// verifCheckServedTruth: whatever this Storer reports and serves is true: one contiguous range inside
+// what the source sent (stream[i] is the byte at offset base+i), every valid offset readable up to
+// the reported right edge with the source's bytes, an offered snapshot completely present.
+// pfx selects the assertion family ("C08." after a restart, "C05.disk." for a live cache).
+func verifCheckServedTruth(s2 *Storer, base int64, stream []byte, snaps []verifSnap, pfx string) {
+	end := base + int64(len(stream))
+	l, r := s2.GetOffsetRange()
+	verifAssert((l == -1) == (r == -1), pfx+"range-half-defined")
+	if l != -1 {
+		verifAssert(l <= r && l >= base && r <= end, pfx+"range-outside-what-was-sent")
+	}
+	rl, rs := s2.GetRdb()
+	if rl != -1 {
+		found := false
+		for _, sn := range snaps {
+			if sn.left == rl && int64(len(sn.data)) == rs {
+				found = true
+				rd, err := s2.GetReader(rl-1, false)
+				verifAssert(err == nil && !rd.IsAof(), pfx+"offered-snapshot-unreadable")
+				f, ferr := verifOpenFile(rdbFilePath(s2.dir, rl, rs), 0, 0)
+				verifAssert(ferr == nil, pfx+"offered-snapshot-has-no-file")
+				if ferr == nil {
+					verifAssert(int64(len(f.n.data)) == rs, pfx+"incomplete-snapshot-offered")
+					for i := 0; i < len(f.n.data) && i < len(sn.data); i++ {
+						verifAssert(f.n.data[i] == sn.data[i], pfx+"snapshot-bytes-differ")
+					}
+				}
+				if err == nil {
+					rd.Close()
+				}
+			}
+		}
+		verifAssert(found, pfx+"offers-unknown-snapshot")
+		verifCover(true, "served.snapshot-offered")
+	}
+	for x := base - 1; x <= end+1; x++ {
+		valid := s2.IsValidOffset(x)
+		inRange := l != -1 && x >= l && x <= r
+		if inRange {
+			verifAssert(valid, pfx+"offset-inside-reported-range-invalid")
+		}
+		if x > end || (x < base && rl == -1) {
+			verifAssert(!valid, pfx+"offset-never-sent-valid")
+		}
+		if !valid {
+			continue
+		}
+		rd, err := s2.GetReader(x, false)
+		verifAssert(err == nil, pfx+"valid-offset-but-no-reader")
+		if err != nil {
+			continue
+		}
+		if rd.IsAof() {
+			// everything from x to the reported right edge, and exactly the source's bytes
+			want := int(r - x)
+			got, rerr := verifReadAof(rd.aof, want)
+			verifAssert(rerr == nil, pfx+"reader-error-inside-range")
+			verifAssert(len(got) == want, pfx+"range-not-contiguous")
+			for i := 0; i < len(got); i++ {
+				o := int(x-base) + i
+				verifAssert(o < len(stream) && got[i] == stream[o], pfx+"serves-bytes-the-source-did-not-send")
+			}
+			rd.aof.Close()
+			verifReach("served.read")
+		} else {
+			rd.rdb.Close()
+		}
+		rd.Close()
+	}
+}
+
 // VerifC08Crash: a write sequence under one replication id (optional snapshot, log with
 // rotation, optionally a collection pass, optionally a second full synchronisation further on in
 // the same history) runs with crash imaging armed; the image - frozen at any mutation, inside
@@ -304,16 +381,12 @@ func VerifC08Crash() {
 
 	// source truth of this replication id: stream[i] is the byte at offset base+i; snapshots by their offset
 	var stream []byte
-	type snap struct {
-		left int64
-		data []byte
-	}
-	var snaps []snap
+	var snaps []verifSnap
 
 	epoch := func(name string, left int64, withRdb bool, collectAt int) {
 		if withRdb {
 			rchunks, rall := verifChunks(name+"rdb", 1, C)
-			snaps = append(snaps, snap{left, rall})
+			snaps = append(snaps, verifSnap{left, rall})
 			w, err := s.GetRdbWriter(&verifSrc{chunks: rchunks}, left, int64(len(rall)))
 			verifAssert(err == nil, "C08.new-rdb-writer")
 			w.Start()
@@ -333,7 +406,7 @@ func VerifC08Crash() {
 		w.Wait(ctx)
 	}
 
-	scenario := verifChoose("scenario", 4)
+	scenario := verifChoose("scenario", 5)
 	switch scenario {
 	case 0: // log only
 		epoch("a", base, false, -1)
@@ -341,11 +414,17 @@ func VerifC08Crash() {
 		epoch("a", base, true, -1)
 	case 2: // snapshot, log, and a collection pass over the limit while the log grows
 		epoch("a", base, true, K)
-	default: // log, then a second full synchronisation later in the same history (bytes in between never cached)
+	case 3: // log, then a second full synchronisation later in the same history (bytes in between never cached)
 		epoch("a", base, false, -1)
 		skip := verifRange("skip", 0, 2)
 		stream = append(stream, verifBytes("uncached", skip)...)
 		epoch("b", base+int64(len(stream)), true, -1)
+	default: // snapshot + log, then the log writer is replaced at a later offset without a reset: a gap on disk
+		epoch("a", base, true, -1)
+		skip := verifRange("skip", 1, 2)
+		stream = append(stream, verifBytes("uncached", skip)...)
+		epoch("b", base+int64(len(stream)), false, -1)
+		verifCover(true, "c08.gap-on-disk")
 	}
 	verifFS.armed = false
 	img := verifFS.frozen
@@ -356,74 +435,20 @@ func VerifC08Crash() {
 	verifCover(crashed, "c08.crashed")
 	verifCover(!crashed, "c08.complete")
 
-	// --- restart on the frozen image ---
+	// --- restart on the frozen image; the restart's own clean-up may be cut short as well, then a
+	// further restart opens what that left ---
 	verifFS = img
+	verifFS.armed, verifFS.frozen = true, nil
 	s2 := verifNewStorer(L, 0)
 	verifAssert(s2.SetRunId("r1") == nil, "C08.reopen")
-	end := base + int64(len(stream))
-	l, r := s2.GetOffsetRange()
-	verifAssert((l == -1) == (r == -1), "C08.range-half-defined")
-	if l != -1 {
-		verifAssert(l <= r && l >= base && r <= end, "C08.range-outside-what-was-sent")
+	verifFS.armed = false
+	if img2 := verifFS.frozen; img2 != nil {
+		verifFS = img2
+		s2 = verifNewStorer(L, 0)
+		verifAssert(s2.SetRunId("r1") == nil, "C08.reopen")
+		verifCover(true, "c08.crash-during-reopen")
 	}
-	rl, rs := s2.GetRdb()
-	if rl != -1 {
-		found := false
-		for _, sn := range snaps {
-			if sn.left == rl && int64(len(sn.data)) == rs {
-				found = true
-				rd, err := s2.GetReader(rl-1, false)
-				verifAssert(err == nil && !rd.IsAof(), "C08.offered-snapshot-unreadable")
-				f, ferr := verifOpenFile(rdbFilePath(s2.dir, rl, rs), 0, 0)
-				verifAssert(ferr == nil, "C08.offered-snapshot-has-no-file")
-				if ferr == nil {
-					verifAssert(int64(len(f.n.data)) == rs, "C08.incomplete-snapshot-offered")
-					for i := 0; i < len(f.n.data) && i < len(sn.data); i++ {
-						verifAssert(f.n.data[i] == sn.data[i], "C08.snapshot-bytes-differ")
-					}
-				}
-				if err == nil {
-					rd.Close()
-				}
-			}
-		}
-		verifAssert(found, "C08.offers-unknown-snapshot")
-		verifCover(true, "c08.snapshot-offered")
-	}
-	for x := base - 1; x <= end+1; x++ {
-		valid := s2.IsValidOffset(x)
-		inRange := l != -1 && x >= l && x <= r
-		if inRange {
-			verifAssert(valid, "C08.offset-inside-reported-range-invalid")
-		}
-		if x > end || (x < base && rl == -1) {
-			verifAssert(!valid, "C08.offset-never-sent-valid")
-		}
-		if !valid {
-			continue
-		}
-		rd, err := s2.GetReader(x, false)
-		verifAssert(err == nil, "C08.valid-offset-but-no-reader")
-		if err != nil {
-			continue
-		}
-		if rd.IsAof() {
-			// everything from x to the reported right edge, and exactly the source's bytes
-			want := int(r - x)
-			got, rerr := verifReadAof(rd.aof, want)
-			verifAssert(rerr == nil, "C08.reader-error-inside-range")
-			verifAssert(len(got) == want, "C08.range-not-contiguous")
-			for i := 0; i < len(got); i++ {
-				o := int(x-base) + i
-				verifAssert(o < len(stream) && got[i] == stream[o], "C08.serves-bytes-the-source-did-not-send")
-			}
-			rd.aof.Close()
-			verifReach("c08.read")
-		} else {
-			rd.rdb.Close()
-		}
-		rd.Close()
-	}
+	verifCheckServedTruth(s2, base, stream, snaps, "C08.")
 	verifReach("c08.end")
 }
 
@@ -577,4 +602,48 @@ func VerifC06VerifyRunId() {
 		verifAssert(l == -1 && r == -1, "C06.cache-relabelled-by-lookup")
 	}
 	verifReach("c06.store.lookup-done")
+}
+
+// VerifC05DiskGapReload (C05, disk): a live cache whose log writer was replaced at a later offset (the
+// disk backend accepts that: a gap between the segments) reloads its index (what every reconnect does
+// through StartPoint/VerifyRunId): afterwards whatever it reports valid is readable with the source's
+// bytes, and a snapshot is offered only while its bytes are present.
+func VerifC05DiskGapReload() {
+	verifFS = verifNewFS()
+	verifFS.add(verifBaseDir, &verifNode{dir: true})
+	L := int64(verifParam("LOGSIZE", 2))
+	C := verifParam("CHUNKMAX", 3)
+	base := int64(verifParam("BASE", 100))
+	s := verifNewStorer(L, 0)
+	verifAssert(s.SetRunId("r1") == nil, "C05.disk.set-runid")
+	ctx := context.Background()
+	var stream []byte
+	var snaps []verifSnap
+	if verifChoose("snapshot", 2) == 1 {
+		rchunks, rall := verifChunks("rdb", 1, C)
+		snaps = append(snaps, verifSnap{base, rall})
+		w, err := s.GetRdbWriter(&verifSrc{chunks: rchunks}, base, int64(len(rall)))
+		verifAssert(err == nil, "C05.disk.new-rdb-writer")
+		w.Start()
+		w.Wait(ctx)
+	}
+	c1, a1 := verifChunks("a", verifParam("GAPCHUNKS", 2), C)
+	w1, err := s.GetAofWritter(&verifSrc{chunks: c1}, base)
+	verifAssert(err == nil, "C05.disk.new-aof-writer")
+	w1.Start()
+	w1.Wait(ctx)
+	stream = append(stream, a1...)
+	skip := verifRange("skip", 0, 2) // 0: the replacement continues seamlessly
+	stream = append(stream, verifBytes("uncached", skip)...)
+	c2, a2 := verifChunks("b", 1, C)
+	w2, err := s.GetAofWritter(&verifSrc{chunks: c2}, base+int64(len(stream)))
+	verifAssert(err == nil, "C05.disk.new-aof-writer")
+	w2.Start()
+	w2.Wait(ctx)
+	stream = append(stream, a2...)
+	_, verr := s.VerifyRunId([]string{"r1"})
+	verifAssert(verr == nil, "C05.disk.reload-error")
+	verifCheckServedTruth(s, base, stream, snaps, "C05.disk.reload.")
+	verifCover(skip > 0, "c05.disk.gap")
+	verifReach("c05.disk.gap-reload-end")
 }
